@@ -239,6 +239,20 @@ def bfsIds (g : Graph) (sub : String) : Nat → List Nat → List String → Lis
 def subtreeIds (g : Graph) (sub : String) (k : Nat) : List String :=
   bfsIds g sub (g.nodes.length * g.nodes.length + 1) [k] []
 
+/-- the same traversal collecting the *objects* (node keys) instead of their ids: what
+`[s._h5group for s in item.find_sections()]` / `find_sources()` hands to `delete_all` -/
+def bfsKeys (g : Graph) (sub : String) : Nat → List Nat → List Nat → List Nat
+  | 0, _, acc => acc
+  | _ + 1, [], acc => acc
+  | fuel + 1, k :: queue, acc =>
+    let kids := match g.child? k sub with
+      | some c => (g.links c).map (·.2)
+      | none => []
+    bfsKeys g sub fuel (queue ++ kids) (acc ++ [k])
+
+def subtreeKeys (g : Graph) (sub : String) (k : Nat) : List Nat :=
+  bfsKeys g sub (g.nodes.length * g.nodes.length + 1) [k] []
+
 /-! ## deletion -/
 
 /-- `H5Group.delete(id_or_name, delete_if_empty)` on the group `grp` (linked as `lname` from
@@ -272,14 +286,9 @@ def contDel (g : Graph) (c : Cont) (key : Key) : Except Err Graph :=
     if kindOf g k != c.info.item then .error .typeError
     else
       match c.info.flavour with
-      | .plain | .features =>
-        match g.entityId k with
-        | some i => .ok (g.deleteAll [i])
-        | none => .ok g
-      | .sections => .ok (g.deleteAll (subtreeIds g "sections" k))
-      | .sources =>
-        let ids := subtreeIds g "sources" k
-        .ok (g.deleteAll (ids ++ (match g.entityId k with | some i => [i] | none => [])))
+      | .plain | .features => .ok (g.deleteObjs [k])
+      | .sections => .ok (g.deleteObjs (subtreeKeys g "sections" k))
+      | .sources => .ok (g.deleteObjs (subtreeKeys g "sources" k ++ [k]))
       | .link | .sourceLink =>
         match c.node, g.entityId k with
         | some cn, some i => h5Delete g cn c.owner.key c.cname (c.owner.depth + 1) i true
